@@ -4,22 +4,27 @@
   Statement (full strength, `C13_statement`): for any two class bodies that declare the same fields,
   each field in any of its documented spellings (relation `ClassSame` / `FieldSame` / `SameMeaning`:
   annotation vs assignment, field class vs instance, builtin / typing / PEP-585 / PEP-604 vs typedpy
-  fields at every nesting depth, `= v` vs `default=v`, `Optional[T]` vs `AnyOf[T, None]` + `_optional`),
-  with or without `from __future__ import annotations`, the class statements have the same outcome
+  fields at every nesting depth, Structure classes as field types, one- and two-element tuples, `X | 529`,
+  `= v` vs `default=v`, default factories, `Optional[T]` vs `AnyOf[T, None]` + `_optional`), evaluated, quoted or
+  future-import annotations at module / function / nested scope, the class statements have the same outcome
   (same exception class, or classes with the same fields, `_required`, defaults) and the classes
   accept / reject / normalise every keyword-argument list identically.
 
-  The code still violates the full statement in two places (one open typedpy finding: a falsy invalid
-  `default=` is not validated; and typing's own de-duplication of `Union[int, int]`), each with a
-  kernel-checked counterexample below.  Five earlier findings (PEP-604 unions of plain types dropped /
-  rejected, `Field | None`, `Field | list[int]`, long annotations under the future import) were repaired in
-  typedpy commit b6795f9; the model, the pinned table and the supported region moved with it, and their
-  former counterexamples are now positive instances (`fixed_*`).  Proved: `statement_partial` — the
-  statement on the decidable region `classSupported`, which excludes exactly the open finding, the
-  places where `typing` / Python itself rewrites the expression (directly nested / duplicate union
-  members) and undocumented forms; it follows from `elabField_meaning` (model of the code = documented
-  meaning, by structural induction over spellings, `Lemmas/Elab.ev_good`) and `sameMeaning_denote`
-  (induction on the derivation).
+  The code still violates the full statement where open findings are listed (a falsy invalid `default=` is not
+  validated; typing's own de-duplication of `Union[int, int]` changes the error class; string annotations whose names
+  live in an enclosing function; mutable defaults - oracle-only), each modelled one with a kernel-checked counterexample
+  below (`counterexample_*`).  Findings repaired in typedpy (PEP-604 unions of plain types dropped / rejected,
+  `Field | None`, `Field | list[int]`, long annotations under the future import: b6795f9; tuple single class 0808c66;
+  factory once d1c0173; Structure-first union 1c6af32 and, as item type, 4d54fb6; `Tuple(items=<Structure class>)`
+  cdab473; quoted annotations b6495fe) are positive theorems (`fixed_*`): the model, the pinned table and the supported
+  region moved with each repair.  Proved: `statement_partial` — the statement on the decidable region `classSupported`,
+  which excludes exactly the open findings and undocumented forms; it follows from `elabField_meaning` (model of the
+  code = documented meaning, by structural induction over spellings, `Lemmas/Elab.ev_good`) and `sameMeaning_denote`
+  (induction on the derivation).  "Behaviourally identical" is the family `same_observation` / `same_behaviour` /
+  `same_serialize` / `same_deserialize` / `same_schema` (congruence through Sem/Validate, Sem/Serde, Sem/Deser,
+  Sem/Schema).  typing's rewriting of unions: `elaborate_flatten` / `flatten_equiv` / `elabField_flatten` (trees of
+  `Union` / `Optional` / PEP 604 `|`, `Lemmas/ElabFlat`) and `union_duplicate_collapses`.  `_required` written out:
+  `explicit_required_equiv`.
   All theorems are about `Sem/Elaborate` instantiated with `Pinned.typeMap`; `Props/C13Tie.lean`
   proves that this is the table extracted from the current working tree.
 -/
@@ -707,6 +712,31 @@ theorem fixed_struct_first_nested :
         = .ok (.field (.seqOf .list (.anyOf [.noneF, ownerD]) {}) true none) :=
   ⟨SameMeaning.coll .sub .sub .list (SameMeaning.altOptional .pipe (SameMeaning.scls ownerD 5 5)),
    rfl, rfl, rfl, rfl, rfl, rfl, rfl, rfl⟩
+
+/-! ### a literal alternative -/
+
+/-- The documented PEP-604 example `a: Integer(maximum=100) | Owner | str | 529` ("a can be assigned any integer up to 100,
+    an instance of Owner, a string, the number 529") and `AnyOf[AnyOf[AnyOf[Integer(maximum=100), Owner], String],
+    Enum(values=[529])]` are the same declaration, inside the proved region. -/
+theorem pipe_literal_equiv :
+    let i100 : Sp := .lit (.integer { max := some ⟨100, 1⟩ }) 20
+    let chain : Sp := .pipeLit (.pipe (.pipe i100 owner) (.builtin .str)) (.int 529) 3
+    let nested : Sp := .anyOf (.anyOf (.anyOf i100 owner) fStr) (.lit (.enumLit [.int 529]) 18)
+    let d : FieldDecl := .anyOf [.anyOf [.anyOf [.integer { max := some ⟨100, 1⟩ }, ownerD], .string none none none], .enumLit [.int 529]]
+    SameMeaning chain nested
+    ∧ fieldSupported noRe tm true (annF chain) = true ∧ fieldSupported noRe tm false (annF nested) = true
+    ∧ elabField noRe tm true (annF chain) = .ok (.field d true none)
+    ∧ elabField noRe tm false (annF nested) = .ok (.field d true none)
+    ∧ elabField noRe tm false { name := "a", mode := .assign, ty := chain } = .ok (.field d true none)
+    ∧ validate noRe d (.int 529) = .ok (.int 529)
+    ∧ validate noRe d (.int 99) = .ok (.int 99)
+    ∧ validate noRe d (.int 530) = .error .valueErr
+    ∧ elabField noRe tm false (annF (.pipeLit (.builtin .int) (.int 5) 1)) = .error .typeErr :=
+  ⟨SameMeaning.pipeLitAnyOf (.int 529) 3 18
+      (SameMeaning.alt .pipe .anyOf
+        (SameMeaning.alt .pipe .anyOf (SameMeaning.lit _ 20 20) (SameMeaning.scls ownerD 5 5))
+        (SameMeaning.scalar .builtin .cls .str)),
+   rfl, rfl, rfl, rfl, rfl, rfl, rfl, rfl, rfl⟩
 
 /-! ### behaviour clause, concretely -/
 
